@@ -648,3 +648,66 @@ func TestC15Burst(t *testing.T) {
 		}
 	})
 }
+
+// TestC15Unwritable: an account whose file can be read but not rewritten (a login of 247-250
+// bytes: <login>.yaml is a legal file name, the temporary name used while writing is not).  An edit
+// of such an account cannot be saved; whatever the server answers, the three views must stay one:
+// either all show the edit or none does.
+func TestC15Unwritable(t *testing.T) {
+	ev := evid.New("C15", "TestC15Unwritable")
+	defer ev.Flush()
+	rapid.Check(t, func(rt *rapid.T) {
+		login := strings.Repeat("M", rapid.SampledFrom([]int{247, 248, 250}).Draw(rt, "loginlen"))
+		newName := string(genBytes(rt, "name", rapid.IntRange(1, 12).Draw(rt, "namelen")))
+		if strings.ContainsAny(newName, "\n\r\x00") || !utf8.ValidString(newName) {
+			newName = "Edited"
+		}
+		newAcc := genAccess(rt, "acc").Defined()
+		pwKind := rapid.SampledFrom([]string{"set", "keep", "absent"}).Draw(rt, "pwkind")
+		via := rapid.SampledFrom([]string{"set-user", "update-user"}).Draw(rt, "via")
+		old := hlsim.AccountSpec{Login: login, Name: "Original", Password: "oldpw", Access: hlref.AccessOf(hlref.PrivDownloadFile)}
+		inWorld(rt, hlsim.Options{Accounts: []hlsim.AccountSpec{acct("admin", "Admin", "adminpw", allAccess), old}, Agreement: "a"}, func(rt *rapid.T, w *hlsim.World) {
+			s := &c15state{rt: rt, w: w, model: map[string]*c15acct{}, ev: ev, pws: []string{"adminpw"}}
+			s.reconnectAdmin()
+			fs := []hlref.Field{hlref.F(hlref.FUserLogin, hlref.Obfuscate([]byte(login))), hlref.F(hlref.FUserName, []byte(newName)), hlref.F(hlref.FUserAccess, newAcc[:])}
+			if f, ok := pwField(pwKind, "newpw"); ok {
+				fs = append(fs, f)
+			}
+			if via == "set-user" {
+				s.admin.Request(hlref.TranSetUser, fs...)
+			} else {
+				s.admin.Request(hlref.TranUpdateUser, hlref.F(hlref.FData, subFields(fs...)))
+			}
+			settle(0)
+			// the listing decides which of the two states the server is in
+			r := s.admin.Request(hlref.TranGetUser, sfld(hlref.FUserLogin, login))
+			if !okReply(r) {
+				rt.Fatalf("the account is gone after an edit that could not be saved")
+			}
+			gotName, _ := r.Get(hlref.FUserName)
+			acc, _ := r.Get(hlref.FUserAccess)
+			var listed hlref.Access
+			copy(listed[:], acc)
+			edited := string(gotName) == newName && newName != "Original"
+			pw := "oldpw"
+			if edited {
+				switch pwKind {
+				case "set":
+					pw = "newpw"
+				case "absent":
+					pw = ""
+				}
+			}
+			s.model[login] = &c15acct{name: string(gotName), access: listed, pw: pw}
+			ctx := fmt.Sprintf("after an edit (%s, password %s) of an account whose file cannot be rewritten; the server shows name %q", via, pwKind, gotName)
+			s.checkList(ctx)
+			s.checkDisk(ctx)
+			s.checkFreshManager(ctx)
+			s.expectLogin(login, pw, ctx)
+			if pw != "oldpw" {
+				s.expectLogin(login, "oldpw", ctx)
+			}
+		})
+		ev.Case(evid.Hash("unwritable", len(login), newName, newAcc[:], pwKind, via), true, "unwritable-account-file", "via:"+via)
+	})
+}
